@@ -12,6 +12,8 @@ pub struct DbProc {
     stdin: Option<ChildStdin>,
     rx: Receiver<String>,
     pub dead: bool,
+    /// what the child wrote to stderr (panic messages of its threads)
+    pub stderr: std::sync::Arc<std::sync::Mutex<String>>,
 }
 
 #[derive(Debug, Clone, PartialEq)]
@@ -31,9 +33,33 @@ impl DbProc {
             .env("RUST_BACKTRACE", "0")
             .stdin(Stdio::piped())
             .stdout(Stdio::piped())
-            .stderr(if std::env::var("LV_CHILD_STDERR").is_ok() { Stdio::inherit() } else { Stdio::null() })
+            .stderr(Stdio::piped())
             .spawn()
             .expect("spawn child");
+        let stderr = std::sync::Arc::new(std::sync::Mutex::new(String::new()));
+        {
+            let err = child.stderr.take().unwrap();
+            let buf = stderr.clone();
+            let echo = std::env::var("LV_CHILD_STDERR").is_ok();
+            std::thread::spawn(move || {
+                let r = BufReader::new(err);
+                for line in r.lines() {
+                    match line {
+                        Ok(l) => {
+                            if echo {
+                                eprintln!("[child] {}", l);
+                            }
+                            let mut b = buf.lock().unwrap();
+                            if b.len() < 20_000 {
+                                b.push_str(&l);
+                                b.push('\n');
+                            }
+                        }
+                        Err(_) => break,
+                    }
+                }
+            });
+        }
         let stdin = child.stdin.take();
         let stdout = child.stdout.take().unwrap();
         let (tx, rx) = channel();
@@ -50,7 +76,7 @@ impl DbProc {
                 }
             }
         });
-        DbProc { child, stdin, rx, dead: false }
+        DbProc { child, stdin, rx, dead: false, stderr }
     }
 
     pub fn request(&mut self, cmd: &Sx, deadline: Duration) -> Reply {
@@ -95,6 +121,27 @@ impl DbProc {
             let _ = self.child.wait();
             self.dead = true;
         }
+    }
+}
+
+impl DbProc {
+    /// "file.rs: message" of the first panic the child reported on stderr (line numbers removed)
+    pub fn first_panic(&self) -> Option<String> {
+        // give the reader thread a moment to drain the pipe
+        std::thread::sleep(Duration::from_millis(30));
+        let b = self.stderr.lock().unwrap();
+        let mut lines = b.lines();
+        while let Some(l) = lines.next() {
+            if let Some(pos) = l.find("panicked at ") {
+                let loc = &l[pos + 12..];
+                let file = loc.split(':').next().unwrap_or("");
+                let file = file.rsplit('/').next().unwrap_or(file);
+                let msg = lines.next().unwrap_or("");
+                let msg: String = msg.chars().take(60).collect();
+                return Some(format!("{}: {}", file, msg));
+            }
+        }
+        None
     }
 }
 
